@@ -105,6 +105,29 @@ func sameFiles(a, b []world.File) bool {
 	return true
 }
 
+// sameFilesExact: the downloaded files, datamon's own metadata aside, are exactly the expected ones (entries under
+// .conflicts/ included)
+func sameFilesExact(got, want []world.File) bool {
+	var plain []world.File
+	for _, f := range got {
+		if !strings.HasPrefix(f.Name, ".datamon/") {
+			plain = append(plain, f)
+		}
+	}
+	w := append([]world.File(nil), want...)
+	sort.Slice(plain, func(i, j int) bool { return plain[i].Name < plain[j].Name })
+	sort.Slice(w, func(i, j int) bool { return w[i].Name < w[j].Name })
+	if len(plain) != len(w) {
+		return false
+	}
+	for i := range plain {
+		if plain[i].Name != w[i].Name || string(plain[i].Data) != string(w[i].Data) {
+			return false
+		}
+	}
+	return true
+}
+
 func c06Diamond(cs *c06Case, w *world.World, r *gen.Rand) {
 	cs.did = kid(r, 4000)
 	dd := model.NewDiamondDescriptor(model.DiamondID(cs.did))
